@@ -479,4 +479,315 @@ Proof.
     pose proof (INJ _ _ _ _ _ Hp Hw) as C. inv C. contradiction.
 Qed.
 
+
+(* ---------------- small list facts ---------------- *)
+Lemma NoDup_app_iff {A} (a b : list A) :
+  NoDup (a ++ b) <-> NoDup a /\ NoDup b /\ (forall x, In x a -> ~ In x b).
+Proof.
+  induction a as [|x t IH]; cbn [app].
+  - split; [intros H; split; [constructor | split; [auto | intros x []]] | tauto].
+  - split.
+    + intros H. inv H. apply IH in H3. destruct H3 as (A1 & A2 & A3).
+      split; [constructor; auto; intros C; apply H2; apply in_or_app; auto|].
+      split; auto. intros y [<-|Hy]; [intros C; apply H2; apply in_or_app; auto | auto].
+    + intros (A1 & A2 & A3). inv A1. constructor.
+      * intros C. apply in_app_or in C. destruct C as [C|C]; [auto | eapply A3; eauto; left; auto].
+      * apply IH. repeat split; auto. intros y Hy. apply A3. right; auto.
+Qed.
+Lemma NoDup_unrev {A} (l : list A) : NoDup (rev l) -> NoDup l.
+Proof. intros H. apply NoDup_rev in H. rewrite rev_involutive in H. auto. Qed.
+Lemma flat_map_map_comp {A B C} (f : B -> list C) (g : A -> B) l :
+  flat_map f (map g l) = flat_map (fun x => f (g x)) l.
+Proof. induction l; cbn; auto. rewrite IHl; auto. Qed.
+Lemma Permutation_filter {A} (f : A -> bool) l l' : Permutation l l' -> Permutation (filter f l) (filter f l').
+Proof.
+  induction 1; cbn; auto.
+  - destruct (f x); auto.
+  - destruct (f x), (f y); auto. constructor.
+  - eapply Permutation_trans; eauto.
+Qed.
+
+(* keys of the entries are among the claims, each at most once *)
+Lemma entries_nodup {X K V} (f : X -> list K) (g : X -> list (K * V)) :
+  (forall x, NoDup (f x) -> NoDup (map fst (g x)) /\ incl (map fst (g x)) (f x)) ->
+  forall l, NoDup (flat_map f l) ->
+  NoDup (map fst (flat_map g l)) /\ incl (map fst (flat_map g l)) (flat_map f l).
+Proof.
+  intros L. induction l as [|x t IH]; cbn [flat_map map]; intros ND.
+  - split; [constructor | intros y []].
+  - apply NoDup_app_iff in ND. destruct ND as (A1 & A2 & A3).
+    destruct (L x A1) as [B1 B2]. destruct (IH A2) as [C1 C2].
+    rewrite map_app. split.
+    + apply NoDup_app_iff. repeat split; auto. intros y Hy C. eapply A3; eauto.
+    + intros y Hy. apply in_app_or in Hy. apply in_or_app. destruct Hy; [left; auto | right; auto].
+Qed.
+
+Lemma chan_entry_local e p x :
+  NoDup (chan_claim e p x) -> NoDup (map fst (chan_entry e p x)) /\ incl (map fst (chan_entry e p x)) (chan_claim e p x).
+Proof.
+  intros _. assert (Z : forall l : list (N * N), NoDup (@map (N * N * list F) _ fst []) /\ incl (@map (N * N * list F) _ fst []) l).
+  { intros l. split; [constructor | intros y []]. }
+  unfold chan_entry, chan_claim. destruct (fst x) as [pc| |]; try apply Z.
+  destruct (pad_pos e (p_board p) (p_chip p) pc) as [|[c r]]; try apply Z.
+  destruct (pad_cal e c r) as [|[[bl g] dl]]; try apply Z.
+  destruct (calib fcal bl g dl (snd x)); try apply Z.
+  cbn [map fst]. split; [constructor; [intros [] | constructor] | apply incl_refl].
+Qed.
+Lemma entries_of_local e cs :
+  NoDup (claims_of e cs) -> NoDup (map fst (entries_of e cs)) /\ incl (map fst (entries_of e cs)) (claims_of e cs).
+Proof.
+  rewrite claims_of_eq. unfold entries_of. destruct (reasm e cs) as [|p].
+  - intros _. split; [constructor | intros y []].
+  - apply entries_nodup. apply chan_entry_local.
+Qed.
+
+Lemma chan_entry_in e p x c r s : In ((c, r), s) (chan_entry e p x) ->
+  exists pc bl g dl, fst x = Pad pc /\ pad_pos e (p_board p) (p_chip p) pc = DOk (c, r) /\
+    pad_cal e c r = DOk (bl, g, dl) /\ s = calib fcal bl g dl (snd x) /\ s <> [].
+Proof.
+  unfold chan_entry. destruct (fst x) as [pc| |]; try (intros []).
+  destruct (pad_pos e (p_board p) (p_chip p) pc) as [|[c0 r0]] eqn:Ep; try (intros []).
+  destruct (pad_cal e c0 r0) as [|[[bl g] dl]] eqn:Ec; try (intros []).
+  destruct (calib fcal bl g dl (snd x)) as [|f l] eqn:Es; [intros []|].
+  intros [H|[]]. inv H. exists pc, bl, g, dl. repeat split; auto. discriminate.
+Qed.
+Lemma chan_entry_some e p pc wf c r bl g dl :
+  pad_pos e (p_board p) (p_chip p) pc = DOk (c, r) -> pad_cal e c r = DOk (bl, g, dl) ->
+  calib fcal bl g dl wf <> [] -> In ((c, r), calib fcal bl g dl wf) (chan_entry e p (Pad pc, wf)).
+Proof.
+  intros Ep Ec Hs. unfold chan_entry; cbn [fst snd]. rewrite Ep, Ec.
+  destruct (calib fcal bl g dl wf); [congruence | left; auto].
+Qed.
+Lemma went_in e b w s : In (w, s) (went e b) ->
+  exists nb nc p bl g dl, b = BWire nb nc (DOk p) /\ wire_pos e nb nc = DOk w /\
+    wire_cal e w = DOk (bl, g, dl) /\ s = calib fcal bl g dl (a_wf p) /\ s <> [].
+Proof.
+  destruct b as [nb nc [|p]|nb d|d| |]; cbn [went]; try (intros []).
+  destruct (a_wf p) as [|v t] eqn:Ewf; [intros []|].
+  destruct (wire_pos e nb nc) as [|w0] eqn:Ew; [intros []|].
+  destruct (wire_cal e w0) as [|[[bl g] dl]] eqn:Ec; [intros []|].
+  destruct (calib fcal bl g dl (v :: t)) as [|f l] eqn:Es; [intros []|].
+  intros [H|[]]. inv H. exists nb, nc, p, bl, g, dl. rewrite Ewf. repeat split; auto. discriminate.
+Qed.
+Lemma went_some e nb nc p w bl g dl :
+  a_wf p <> [] -> wire_pos e nb nc = DOk w -> wire_cal e w = DOk (bl, g, dl) ->
+  calib fcal bl g dl (a_wf p) <> [] -> In (w, calib fcal bl g dl (a_wf p)) (went e (BWire nb nc (DOk p))).
+Proof.
+  intros Hwf Ew Ec Hs. cbn [went]. destruct (a_wf p) as [|v t] eqn:Ewf; [congruence|].
+  rewrite Ew, Ec. destruct (calib fcal bl g dl (v :: t)); [congruence | left; auto].
+Qed.
+Lemma calib_nil bl g dl : calib fcal bl g dl [] = [].
+Proof. unfold calib. destruct (N.to_nat dl); reflexivity. Qed.
+
+(* ---------------- the groups visited by the pad loop ---------------- *)
+Definition GL (banks : list bank) : list (list chunkv) := map (fun k => group k banks) (gkeys banks).
+
+Lemma gl_perm order banks : is_order order ->
+  Permutation (order (map snd (fold_left addc (chunks banks) []))) (GL banks).
+Proof.
+  intros O. eapply Permutation_trans; [apply O|].
+  pose proof (Permutation_map snd (groups_perm banks)) as P. rewrite map_map in P. cbn [snd] in P. exact P.
+Qed.
+Lemma pad_claims_GL (e : env) banks : pad_claims e banks = flat_map (claims_of e) (GL banks).
+Proof. unfold pad_claims, GL. rewrite flat_map_map_comp. reflexivity. Qed.
+
+(* ---------------- soundness: an accepted build meets the specification ---------------- *)
+Theorem build_sound e m order banks ev :
+  env_typed e -> banks_typed banks -> is_order order ->
+  build fcal e m order banks = Ok ev -> event_spec fcal e banks ev.
+Proof.
+  intros T B O H. unfold build in H.
+  destruct (loop fcal e m st0 banks) as [s| |] eqn:EL; cbn [bind] in H; try discriminate.
+  destruct (group_loop fcal e m ([], []) (order (map snd (s_groups s)))) as [[pads seen]| |] eqn:EG;
+    cbn [bind] in H; try discriminate.
+  destruct (s_ts s) as [t|] eqn:ET; [|discriminate]. inv H.
+  apply loop_factor in EL. cbn [st0 s_names s_wires s_groups s_ts] in EL. destruct EL as (NU & EW & EP & ETl).
+  apply (wloop_sound e m T banks [] [] _ _ B (NoDup_nil _) (NoDup_nil _)) in EW.
+  destruct EW as (WG & WN & WND & WS & WSD). rewrite app_nil_r in WN, WS.
+  apply ploop_spec in EP. destruct EP as (PB & PG).
+  apply tloop_spec in ETl. rewrite ET in ETl.
+  destruct ETl as [[_ C]|(t' & TT & C)]; [discriminate|]. inv C.
+  rewrite PG in EG.
+  apply (group_loop_spec e m T _ [] [] pads seen (NoDup_nil _)) in EG.
+  destruct EG as (GG & GS & GND & GP). rewrite app_nil_r in GS, GP.
+  pose proof (gl_perm order banks O) as PERM.
+  set (gl := order (map snd (fold_left addc (chunks banks) []))) in *.
+  assert (CND : NoDup (flat_map (claims_of e) gl)) by (subst seen; apply NoDup_unrev; auto).
+  assert (PKD : NoDup (map fst pads)).
+  { subst pads. rewrite map_rev. apply NoDup_rev.
+    apply (entries_nodup (claims_of e) (entries_of e) (entries_of_local e) gl CND). }
+  assert (WKD : NoDup (map fst (s_wires s))) by auto.
+  constructor.
+  - exact NU.
+  - intros nb nc d Hin. pose proof (proj1 (Forall_forall _ _) WG _ Hin) as G. cbn in G.
+    destruct G as (p & -> & Hc & Hb & Hw). exists p. repeat split; auto.
+    intros Hne. destruct (Hw Hne) as (w & bl & g & dl & Ew & Ec). exists w, bl, g, dl. repeat split; auto.
+    intros Hs. unfold wire_at; cbn [ev_wires]. apply assocN_nodup; auto. rewrite WS. apply -> in_rev.
+    apply in_flat_map. exists (BWire nb nc (DOk p)). split; auto. apply went_some; auto.
+  - apply NoDup_unrev. rewrite <- WN. auto.
+  - intros w sg Hat. unfold wire_at in Hat; cbn [ev_wires] in Hat. apply assocN_in in Hat.
+    rewrite WS in Hat. apply in_rev in Hat. apply in_flat_map in Hat. destruct Hat as (b & Hb & Hin).
+    apply went_in in Hin. destruct Hin as (nb & nc & p & bl & g & dl & -> & A1 & A2 & A3 & A4).
+    exists nb, nc, p, bl, g, dl. auto.
+  - exact PB.
+  - intros k Hk.
+    assert (Hin : In (group k banks) gl).
+    { eapply Permutation_in; [apply Permutation_sym; exact PERM|]. unfold GL. apply in_map_iff. eauto. }
+    pose proof (proj1 (Forall_forall _ _) GG _ Hin) as (p & R & CG). exists p. split; auto.
+    intros pc wf Hx. pose proof (proj1 (Forall_forall _ _) CG _ Hx) as G. unfold chan_good in G; cbn [fst] in G.
+    destruct G as (c & r & bl & g & dl & Ep & Ec). exists c, r, bl, g, dl. repeat split; auto.
+    intros Hs. unfold pad_at; cbn [ev_pads]. apply assoc2_nodup; auto. rewrite GP. apply -> in_rev.
+    apply in_flat_map. exists (group k banks). split; auto. unfold entries_of. rewrite R.
+    apply in_flat_map. exists (Pad pc, wf). split; auto. apply chan_entry_some; auto.
+  - rewrite pad_claims_GL. eapply Permutation_NoDup; [|exact CND]. apply Permutation_flat_map. exact PERM.
+  - intros c r sg Hat. unfold pad_at in Hat; cbn [ev_pads] in Hat. apply assoc2_in in Hat.
+    rewrite GP in Hat. apply in_rev in Hat. apply in_flat_map in Hat. destruct Hat as (cs & Hcs & Hin).
+    assert (HG : In cs (GL banks)) by (eapply Permutation_in; eauto).
+    unfold GL in HG. apply in_map_iff in HG. destruct HG as (k & <- & Hk).
+    unfold entries_of in Hin. destruct (reasm e (group k banks)) as [|p] eqn:R; [destruct Hin|].
+    apply in_flat_map in Hin. destruct Hin as ([ch wf] & Hx & Hin).
+    apply chan_entry_in in Hin. cbn [fst snd] in Hin. destruct Hin as (pc & bl & g & dl & -> & A1 & A2 & A3 & A4).
+    exists k, p, pc, wf, bl, g, dl. repeat split; auto.
+  - exists t'. auto.
+Qed.
+
+(* ---------------- acceptance: when the conditions hold the build succeeds ---------------- *)
+Lemma spec_accept e banks ev : event_spec fcal e banks ev -> accept e banks.
+Proof.
+  intros S. destruct S as [sp_names0 sp_wire0 sp_wire_nodup0 sp_wire_only0 sp_pad_bank0 sp_group0 sp_pad_nodup0 sp_pad_only0 sp_trg0]. constructor; auto.
+  - intros nb nc d Hin. destruct (sp_wire0 nb nc d Hin) as (p & A1 & A2 & A3 & A4).
+    exists p. repeat split; auto. intros Hne. destruct (A4 Hne) as (w & bl & g & dl & B1 & B2 & _). eauto 8.
+  - intros k Hk. destruct (sp_group0 k Hk) as (p & R & A). exists p. split; auto.
+    intros pc wf Hx. destruct (A pc wf Hx) as (c & r & bl & g & dl & B1 & B2 & _). eauto 8.
+  - destruct sp_trg0 as (t & A & _). eauto.
+Qed.
+
+Theorem build_accept e m order banks :
+  env_typed e -> banks_typed banks -> wire_pos_injective e -> is_order order ->
+  accept e banks -> exists ev, build fcal e m order banks = Ok ev.
+Proof.
+  intros T B INJ O A. destruct A as [ac_names0 ac_wire0 ac_wire_nodup0 ac_pad_bank0 ac_group0 ac_pad_nodup0 ac_trg0].
+  assert (WG : Forall (wire_good e) banks).
+  { apply Forall_forall. intros b Hb. destruct b; cbn; auto. }
+  destruct (wloop_complete e m T INJ banks [] [] B WG) as [[nm ws] EW].
+  { rewrite app_nil_r. apply NoDup_rev; auto. }
+  { intros; reflexivity. }
+  destruct ac_trg0 as (t & TT).
+  set (s := {| s_names := nm; s_wires := ws; s_groups := fold_left addc (chunks banks) []; s_ts := Some t |}).
+  assert (EL : loop fcal e m st0 banks = Ok s).
+  { apply loop_factor. cbn [st0 s s_names s_wires s_groups s_ts]. repeat split; auto.
+    - apply ploop_spec. split; auto.
+    - apply tloop_spec. right. eauto. }
+  pose proof (gl_perm order banks O) as PERM.
+  set (gl := order (map snd (fold_left addc (chunks banks) []))) in *.
+  assert (EG : group_loop fcal e m ([], []) gl =
+               Ok (rev (flat_map (entries_of e) gl) ++ [], rev (flat_map (claims_of e) gl) ++ [])).
+  { apply (group_loop_spec e m T gl [] [] _ _ (NoDup_nil _)). split; [|split; [reflexivity|split; [|reflexivity]]].
+    - apply Forall_forall. intros cs Hcs.
+      assert (HG : In cs (GL banks)) by (eapply Permutation_in; eauto).
+      unfold GL in HG. apply in_map_iff in HG. destruct HG as (k & <- & Hk).
+      destruct (ac_group0 k Hk) as (p & R & C). exists p. split; auto.
+      apply Forall_forall. intros [ch wf] Hx. unfold chan_good; cbn [fst]. destruct ch; auto. eapply C; eauto.
+    - rewrite app_nil_r. apply NoDup_rev. rewrite pad_claims_GL in ac_pad_nodup0.
+      eapply Permutation_NoDup; [|exact ac_pad_nodup0]. apply Permutation_flat_map. apply Permutation_sym. exact PERM. }
+  unfold build. rewrite EL. cbn [bind s s_groups s_ts]. fold gl. rewrite EG. cbn [bind]. eauto.
+Qed.
+
+(* ---------------- the specification determines the event ---------------- *)
+Lemma spec_wire_le e banks ev ev' : event_spec fcal e banks ev -> event_spec fcal e banks ev' ->
+  forall w s, wire_at ev w = Some s -> wire_at ev' w = Some s.
+Proof.
+  intros S S' w s Hat.
+  destruct (sp_wire_only _ _ _ _ _ S w s Hat) as (nb & nc & p & bl & g & dl & Hin & Ew & Ec & -> & Hne).
+  destruct (sp_wire _ _ _ _ _ S' nb nc _ Hin) as (p' & Ep & _ & _ & A). inv Ep.
+  assert (Hwf : a_wf p' <> []) by (intros C; rewrite C, calib_nil in Hne; congruence).
+  destruct (A Hwf) as (w' & bl' & g' & dl' & Ew' & Ec' & A'). rewrite Ew in Ew'; inv Ew'.
+  rewrite Ec in Ec'; inv Ec'. auto.
+Qed.
+Lemma spec_pad_le e banks ev ev' : event_spec fcal e banks ev -> event_spec fcal e banks ev' ->
+  forall c r s, pad_at ev c r = Some s -> pad_at ev' c r = Some s.
+Proof.
+  intros S S' c r s Hat.
+  destruct (sp_pad_only _ _ _ _ _ S c r s Hat) as (k & p & pc & wf & bl & g & dl & Hk & R & Hx & Ep & Ec & -> & Hne).
+  destruct (sp_group _ _ _ _ _ S' k Hk) as (p' & R' & A). rewrite R in R'; inv R'.
+  destruct (A pc wf Hx) as (c' & r' & bl' & g' & dl' & Ep' & Ec' & A'). rewrite Ep in Ep'; inv Ep'.
+  rewrite Ec in Ec'; inv Ec'. auto.
+Qed.
+Lemma opt_le_eq {A} (x y : option A) : (forall s, x = Some s -> y = Some s) -> (forall s, y = Some s -> x = Some s) -> x = y.
+Proof.
+  destruct x as [a|], y as [b|]; intros H1 H2; auto; try (symmetry; apply H1; auto; fail); apply H2; auto.
+Qed.
+
+Theorem spec_deterministic e banks ev ev' :
+  event_spec fcal e banks ev -> event_spec fcal e banks ev' -> ev_eq ev ev'.
+Proof.
+  intros S S'. split; [|split].
+  - destruct (sp_trg _ _ _ _ _ S) as (t & A & <-). destruct (sp_trg _ _ _ _ _ S') as (t' & A' & <-).
+    rewrite A in A'. inv A'. auto.
+  - intros w. apply opt_le_eq; intros s; eapply spec_wire_le; eauto.
+  - intros c r. apply opt_le_eq; intros s; eapply spec_pad_le; eauto.
+Qed.
+
+Lemma spec_ev_eq e banks ev ev' : ev_eq ev ev' -> event_spec fcal e banks ev -> event_spec fcal e banks ev'.
+Proof.
+  intros (E1 & E2 & E3) S. destruct S as [sp_names0 sp_wire0 sp_wire_nodup0 sp_wire_only0 sp_pad_bank0 sp_group0 sp_pad_nodup0 sp_pad_only0 sp_trg0]. constructor; auto.
+  - intros nb nc d Hin. destruct (sp_wire0 nb nc d Hin) as (p & A1 & A2 & A3 & A4).
+    exists p. repeat split; auto. intros Hne. destruct (A4 Hne) as (w & bl & g & dl & B1 & B2 & B3).
+    exists w, bl, g, dl. repeat split; auto. rewrite <- E2. auto.
+  - intros w s. rewrite <- E2. auto.
+  - intros k Hk. destruct (sp_group0 k Hk) as (p & R & A). exists p. split; auto.
+    intros pc wf Hx. destruct (A pc wf Hx) as (c & r & bl & g & dl & B1 & B2 & B3).
+    exists c, r, bl, g, dl. repeat split; auto. rewrite <- E3. auto.
+  - intros c r s. rewrite <- E3. auto.
+  - destruct sp_trg0 as (t & A & B). exists t. split; auto. congruence.
+Qed.
+
+Theorem build_complete e m order banks ev :
+  env_typed e -> banks_typed banks -> wire_pos_injective e -> is_order order ->
+  event_spec fcal e banks ev -> exists ev', build fcal e m order banks = Ok ev' /\ ev_eq ev' ev.
+Proof.
+  intros T B INJ O S.
+  destruct (build_accept e m order banks T B INJ O (spec_accept _ _ _ S)) as (ev' & H).
+  exists ev'. split; auto. eapply spec_deterministic; eauto. eapply build_sound; eauto.
+Qed.
+
+(* ---------------- permutation of the banks ---------------- *)
+Lemma chunks_perm banks banks' : Permutation banks banks' -> Permutation (chunks banks) (chunks banks').
+Proof. apply Permutation_flat_map. Qed.
+Lemma group_perm k banks banks' : Permutation banks banks' -> Permutation (group k banks) (group k banks').
+Proof. intros P. unfold group. apply Permutation_filter. apply chunks_perm; auto. Qed.
+Lemma gkeys_in_perm k banks banks' : Permutation banks banks' -> In k (gkeys banks) -> In k (gkeys banks').
+Proof.
+  intros P. unfold gkeys. rewrite !nodup_In. apply Permutation_in. apply Permutation_map. apply chunks_perm; auto.
+Qed.
+Lemma gkeys_perm banks banks' : Permutation banks banks' -> Permutation (gkeys banks) (gkeys banks').
+Proof.
+  intros P. apply NoDup_Permutation; try apply NoDup_nodup.
+  intros k; split; apply gkeys_in_perm; auto. apply Permutation_sym; auto.
+Qed.
+
+Theorem spec_perm e banks banks' ev : reasm_perm e -> Permutation banks banks' ->
+  event_spec fcal e banks ev -> event_spec fcal e banks' ev.
+Proof.
+  intros RP P S. pose proof (Permutation_sym P) as P'. destruct S as [sp_names0 sp_wire0 sp_wire_nodup0 sp_wire_only0 sp_pad_bank0 sp_group0 sp_pad_nodup0 sp_pad_only0 sp_trg0].
+  assert (RG : forall k, reasm e (group k banks') = reasm e (group k banks)).
+  { intros k. apply RP. apply group_perm; auto. }
+  constructor.
+  - intros C. apply sp_names0. eapply Permutation_in; eauto.
+  - intros nb nc d Hin. apply sp_wire0. eapply Permutation_in; eauto.
+  - eapply Permutation_NoDup; [|exact sp_wire_nodup0]. apply Permutation_flat_map; auto.
+  - intros w s Hat. destruct (sp_wire_only0 w s Hat) as (nb & nc & p & bl & g & dl & Hin & A).
+    exists nb, nc, p, bl, g, dl. split; auto. eapply Permutation_in; eauto.
+  - intros nb d Hin. apply sp_pad_bank0. eapply Permutation_in; eauto.
+  - intros k Hk. rewrite RG. apply sp_group0. eapply gkeys_in_perm; eauto.
+  - unfold pad_claims in *. eapply Permutation_NoDup; [|exact sp_pad_nodup0].
+    rewrite (flat_map_ext (fun k => claims_of e (group k banks')) (fun k => claims_of e (group k banks))).
+    + apply Permutation_flat_map. apply gkeys_perm; auto.
+    + intros k. unfold claims_of. rewrite RG. reflexivity.
+  - intros c r s Hat. destruct (sp_pad_only0 c r s Hat) as (k & p & pc & wf & bl & g & dl & Hk & R & A).
+    exists k, p, pc, wf, bl, g, dl. split; [eapply gkeys_in_perm; eauto|]. rewrite RG. auto.
+  - destruct sp_trg0 as (t & A & B). exists t. split; auto.
+    apply Permutation_length_1_inv. rewrite <- A. apply Permutation_flat_map; auto.
+Qed.
+
 End Proofs.
